@@ -371,7 +371,7 @@ pub fn main(a: &Args) {
                                     })
                                 });
                             let rec = json!({
-                                "kind": "c15", "n": n, "label": label, "class": class, "other": other,
+                                "kind": "c15", "n": n, "label": label, "class": class, "other": other, "target_wire_name": new_travel.wire_name,
                                 "legacy": {"name": m.legacy, "wire_ty": format!("{:?}", legacy_wire_ty), "value": canon::value(lv, &no)},
                                 "new": newv.map(|v| json!({"back": new_travel.back_name, "wire_name": new_travel.wire_name, "wire_ty": format!("{:?}", new_travel.wire_ty), "value": v})),
                                 "expected_props": {new_travel.back_name.clone(): expected.get(&new_travel.back_name).cloned().unwrap_or(J::Null)},
@@ -385,6 +385,10 @@ pub fn main(a: &Args) {
     }
     if let Some(mut w) = cases {
         let _ = w.flush();
+    }
+    if shard == 0 {
+        // the same rules with a database that knows a migration the bundled one does not (see c16::added_migration)
+        crate::c16::added_migration(&mut rep, "C15");
     }
     rep.finish(&out);
 }
